@@ -136,11 +136,18 @@ def run_shard(ctx):
                      allow_empty=True)
     d.loop(800, 80000)
     binary_stratum(ctx, d.ws, ctx.share(64, 6000))
+    # long listings: first-match must be the head of all-matches also when the first occurrence lies deep in the listing
+    from jv.props import c11
+    c11.long_listing_stratum(ctx, d.ws, ctx.share(16, 300))
 
 
 def replay(ctx, case):
     install()
     ws = real.Workspace()
+    if case.get("long_listing"):
+        from jv.props import c11
+        c11.long_listing_stratum(ctx, ws, 8)
+        return
     if case.get("object_b64"):
         op = ws.write("o.bin", __import__("base64").b64decode(case["object_b64"]))
         res, ev = eight_modes(ctx, ws, ws.write("rule.yaml", case["rule"]), op, binary=True)
